@@ -109,14 +109,17 @@ def c12_dist(w, ev, slot):
             w.fail('c12.distribution', 'outcome %r is impossible for counts '
                    '%r, n=%d (%s)' % (key, counts, n,
                                       ('without', 'with', 'by_id')[mode]))
+    from scipy.stats import binom
     for key, p in law.items():
-        f = freq.get(key, 0) / float(S)
-        sd = math.sqrt(p * (1 - p) / S)
-        if abs(f - p) > 6 * sd + 1e-9:
-            w.fail('c12.distribution', 'outcome %r has frequency %.4f over '
-                   '%d seeds, exact probability %.4f (6 sigma = %.4f); '
+        k = freq.get(key, 0)
+        # exact two-sided binomial tail; a cell is flagged only below 1e-12
+        # (a normal approximation is far too optimistic for rare outcomes)
+        tail = min(binom.cdf(k, S, p), binom.sf(k - 1, S, p))
+        if tail < 1e-12:
+            w.fail('c12.distribution', 'outcome %r occurred %d times in %d '
+                   'seeds, exact probability %.4f (binomial tail %.1e); '
                    'counts %r n=%d mode=%s axis=%s'
-                   % (key, f, S, p, 6 * sd, counts, n,
+                   % (key, k, S, p, tail, counts, n,
                       ('without', 'with', 'by_id')[mode], AXNAME[ax]))
     w.stats['c12.seeds_drawn'] += S
     return 'c12_dist:ok'
@@ -642,6 +645,8 @@ def c19_report(w, ev, slot):
             want = {'None provided'}
         else:
             want = set(real_md[0].keys()) if md is None else set(md[0])
+        if md is None and got in ('None provided', ''):
+            continue      # "no metadata" and "every entry empty" are one state
         if set(got.split('; ')) != want and got != '; '.join(sorted(want)):
             if not (want == set() and got == ''):
                 w.fail('c19.report', '%s%r, expected %r' % (label.strip(), got,
